@@ -20,7 +20,7 @@ def run(ctx):
     n, cases, kinds = ic.run(ctx, "C02", ["mutations"])
     vn, vcases, vdepth = vc.run(ctx, ["t1final", "t2final", "t5final", "t3final"])   # Verdicts.tla: one request state finalizing every history of responses
     rejecting = sum(v for k, v in kinds.items() if not k.endswith("/Id"))
-    an, acases = ag.run(ctx, ['t1final', 't3held'])   # Ages.tla: every schedule of phases on one long-lived object, each phase scaled to n operations
+    an, acases = ag.run(ctx, ['t1final', 't5final', 't3held'])   # Ages.tla: every schedule of phases on one long-lived object, each phase scaled to n operations
     return ctx.finish({
         **ag.coverage(an, acases),
         "traces_validated_against_impl": n,
